@@ -1,4 +1,6 @@
 import PyYetiVerif.Model.Coord
+import PyYetiVerif.Model.CoordRbe3
+import PyYetiVerif.Model.CoordChain
 /-! Line protocol for C14.  Floats travel as decimal `UInt64` bit patterns, in and out.
 
 A *world* `W` is   `N  (ref typ A3 B3 C3)×N   G  (0 | 1 q cin a3 cout)×G`
@@ -12,7 +14,14 @@ request                                 reply (all numbers space separated)
 `rb W <ref>`                            all rows of rbgeom_uset (6 each); `<ref>` = `g i` (entry index) | `x v3`
 `mv W <ref> new3`                       rows of rbmove(rbgeom_uset(W, ref), ref, new)
 `rbc W <ref>`                           per grid: rbcoords (3)
-`rbe3 W dep nd d… ng i… m (i dof w)×m`  rows of formrbe3 (nd rows of m numbers); indices into the `ng` list
+`rbe3 W dep nd (d key)×nd ng i… m (key i dof w)×m nuset um [k key…]`
+                                        formrbe3: `dep`, `i` = entry indices, `d`/`dof` = 1..6, `key` = uset
+                                        row of the DOF, independent DOF in Ind_List order, `um` = 0 | 1 k key…
+                                        (m-set DOF in UM_List order); reply `r c` + r*c numbers, or `raise`
+`bc N (cid ref typ A3 B3 C3)×N`         build_coords on the cards as given: `ok L (cid level)×L D (cid typ o3 T9)×D`
+                                        | `err dup cid` | `err unresolved k id…` | `err refmissing cid ref` | `err diverges`
+`mk N (cid ref typ A3 B3 C3)×N`         mkusetcoordinfo(card, None, coordref) card by card with one dictionary:
+                                        per card `k` (known id) | `n` (new) | `e` (ValueError), then `D (cid typ o3 T9)×D`
 `rep W A3 B3 C3`                        per grid: p(3) origin(3) T(9) after replace_basic_cs
 anything else / unresolvable → `bad-op` -/
 open PyYetiVerif.Coord
@@ -77,8 +86,48 @@ def fV (v : V3 Float) : List Float := v.toList
 def fM (m : M3 Float) : List Float := m.r0.toList ++ m.r1.toList ++ m.r2.toList
 def fRows (rs : List (V3 Float × V3 Float)) : String := fFs (rs.flatMap row6)
 
+def pCards : P (List (Card (CsBody Float))) := do
+  let n ← pNat
+  pMany n (do
+    let cid ← pNat; let r ← pNat; let t ← pTyp; let a ← pV; let b ← pV; let c ← pV
+    pure (⟨cid, r, ⟨t, a, b, c⟩⟩ : Card (CsBody Float)))
+
+def tNat : CType → Nat
+  | .rect => 1 | .cyl => 2 | .sph => 3
+
+def fDict (d : CoordRef Float) : String :=
+  s!"D {d.length}" ++ String.join (d.map fun e =>
+    s!" {e.1} {tNat e.2.typ} " ++ fFs (fV e.2.origin ++ fM e.2.T))
+
+def fErr : BuildErr → String
+  | .dupUnequal c => s!"err dup {c}"
+  | .unresolved l => s!"err unresolved {l.length}" ++ String.join (l.map fun x => s!" {x}")
+  | .refMissing c r => s!"err refmissing {c} {r}"
+  | .diverges => "err diverges"
+
+def runChain (op : String) : P String := do
+  let cards ← pCards
+  pEnd
+  match op with
+  | "bc" =>
+    match buildLevels cards with
+    | .error e => pure (fErr e)
+    | .ok lv =>
+      if cards.isEmpty then pure "ok L 0 D 0" else
+      match buildCoords cards with
+      | .error e => pure (fErr e)
+      | .ok d =>
+        pure (s!"ok L {lv.length}" ++ String.join (lv.map fun p => s!" {p.1.cid} {p.2}") ++ " " ++ fDict d)
+  | _ =>
+    let (st, d) := cards.foldl (fun (acc : String × CoordRef Float) c =>
+      match addCard acc.2 c with
+      | .error _ => (acc.1 ++ "e", acc.2)
+      | .ok d' => (acc.1 ++ (if d'.length == acc.2.length then "k" else "n"), d')) ("S", coordRef0)
+    pure (st ++ " " ++ fDict d)
+
 def run : P String := do
   let op ← tok
+  if op == "bc" || op == "mk" then runChain op else
   let w ← pWorld
   let gs := w.grids.filterMap id
   match op with
@@ -110,19 +159,31 @@ def run : P String := do
   | "rbe3" =>
     let dep ← pNat
     let nd ← pNat
-    let dd ← pMany nd pNat
+    let dds ← pMany nd (do let d ← pNat; let k ← pNat; pure (d, k))
     let ng ← pNat
     let gi ← pMany ng pNat
     let m ← pNat
     let ind ← pMany m (do
-      let i ← pNat; let d ← pNat; let wt ← pF
-      pure (i, d, wt))
+      let key ← pNat; let i ← pNat; let d ← pNat; let wt ← pF
+      pure (key, i, d, wt))
+    let nuset ← pNat
+    let um ← (do
+      match (← pNat) with
+      | 0 => pure (none : Option (List Nat))
+      | _ => let k ← pNat; let ks ← pMany k pNat; pure (some ks))
     pEnd
     let pick (i : Nat) : Option (GridR Float) := (w.grids[i]?).join
     let depg ← (pick dep : Option _)
     let grids ← (gi.mapM pick : Option _)
-    let res ← (rbe3 gaussSolve grids depg dd ind : Option _)
-    pure (fFs res.flatten)
+    let inds ← (ind.mapM (fun (e : Nat × Nat × Nat × Float) => do
+      let g ← pick e.2.1
+      if h : 1 ≤ e.2.2.1 ∧ e.2.2.1 ≤ 6 then
+        pure (e.1, (⟨g, ⟨e.2.2.1 - 1, by omega⟩, e.2.2.2⟩ : IndDof Float))
+      else none) : Option _)
+    match formRbe3 (fun A B => gaussTab A B) grids depg (dds.map (·.1 - 1)) (dds.map (·.2)) inds um nuset with
+    | none => pure "raise"
+    | some res =>
+      pure (s!"{res.length} {(res.head?.map List.length).getD 0} " ++ fFs res.flatten)
   | "rep" =>
     let a ← pV; let b ← pV; let c ← pV
     pEnd
